@@ -148,6 +148,9 @@ pub fn gen_plan(seed: u64, p: &Profile) -> Plan {
             } else {
                 (s.u64() >> 1, s.u64() >> (1 + s.usize(40)))
             }
+        } else if s.chance(1, 4) {
+            // large balances with small amounts: values beyond 2^32 / near 2^63 in every stage
+            (*s.pick(&[1u64 << 32, (1 << 32) + 7, 1 << 40, 1 << 62, (1 << 63) - 1000]) + s.below(1000), *s.pick(&[0u64, 1 << 33, 1 << 50, 900]) + s.below(100))
         } else {
             (s.below(5000), s.below(500))
         };
